@@ -123,10 +123,28 @@ class Check:
             sc_cmds = cmd_groups[b["sc"]]
             ev2 = core.run_driver(drvpath, sc_cmds, self.rd, tag=tag + "_re", env=env)
             bad2, _ = core.validate(self.rd, module, ev2, accel=accel, shards=1, timeout=timeout)
+            history = False
             if not any(keyfn(x) == k for x in bad2):
-                raise Infra("failure %s of scenario %s did not reproduce on replay" % (k, b["sc"]))
+                # not a function of this scenario alone: the library carries state from earlier calls
+                # (a package-level buffer, a cache).  Re-execute the history that leads to it, shortest
+                # window first; the specification still judges every event on its own.
+                idx = max(i for i, c in enumerate(cmds) if c["sc"] == b["sc"])
+                starts = [i for i, c in enumerate(cmds[:idx + 1]) if c.get("op") == "scenario"]
+                ok = False
+                for back in (4, 32, 256, len(starts)):
+                    hist = cmds[starts[max(0, len(starts) - back)]:idx + 1]
+                    ev2 = core.run_driver(drvpath, hist, self.rd, tag=tag + "_re", env=env)
+                    bad2, _ = core.validate(self.rd, module, ev2, accel=accel, shards=1, timeout=timeout)
+                    if any(keyfn(x) == k and x["sc"] == b["sc"] for x in bad2):
+                        sc_cmds, ok, history = hist, True, True
+                        break
+                    if back >= len(starts):
+                        break
+                if not ok:
+                    raise Infra("failure %s of scenario %s did not reproduce on replay" % (k, b["sc"]))
             path = core.write_replay(self.prop, k, sc_cmds, extra=dict(module=module, accel=accel, variant=variant,
-                                     why=b["why"], event=_shorten([b["ev"]])[0], count=len(bl), env=env or {}))
+                                     why=b["why"] + (" (depends on the preceding calls)" if history else ""),
+                                     event=_shorten([b["ev"]])[0], count=len(bl), env=env or {}))
             self.bad.append(dict(key=k, why=b["why"], replay=path, count=len(bl)))
         return events
 
